@@ -427,6 +427,14 @@ func cs(ss []string) []any {
 	return out
 }
 
+func str2(s string) []string {
+	out := []string{}
+	for _, r := range s {
+		out = append(out, string(r))
+	}
+	return out
+}
+
 func str(s string) []any { // a Go string as list of characters (runes)
 	out := []any{}
 	for _, r := range s {
@@ -453,6 +461,12 @@ func randomGroup(r *rand.Rand, i int) vt.Case {
 		}
 	}
 	if i%3 == 2 {
+		// two type symbols somewhere inside, so that several readings exist
+		for k := 0; k < 2; k++ {
+			sym := []string{"=", "!=", "=~", "!~", "=~", "!~"}[r.Intn(6)]
+			at := 1 + r.Intn(len(flat)-1)
+			flat = append(append(append([]string{}, flat[:at]...), str2(sym)...), flat[at:]...)
+		}
 		// conversion cache: every way of reading the flat string as name ++ type ++ value, and every cut with every type
 		for k := 1; k <= len(flat); k++ {
 			rest := strings.Join(flat[k:], "")
